@@ -371,6 +371,39 @@ pub fn exec(tag: i64, inp: &[i64]) -> Vec<i64> {
             }
         }
         62 => test_util_obs(inp[0], inp[1], inp[2], inp[3]),
+        63 => {
+            use helgoboss_midi::test_util as tu;
+            let v = inp[1];
+            let r = region(|| match inp[0] {
+                0 => tu::u4(v as u8).get() as i64,
+                1 => tu::u7(v as u8).get() as i64,
+                2 => tu::u14(v as u16).get() as i64,
+                3 => tu::channel(v as u8).get() as i64,
+                4 => tu::key_number(v as u8).get() as i64,
+                _ => tu::controller_number(v as u8).get() as i64,
+            });
+            vec![r.unwrap_or(PANIC)]
+        }
+        64 => {
+            use helgoboss_midi::test_util as tu;
+            let (which, c, x, y) = (inp[0], inp[1], inp[2], inp[3]);
+            if which == 0 {
+                match region(|| tu::control_change_14_bit(c as u8, x as u8, y as u16)) {
+                    None => vec![PANIC],
+                    Some(m) => enc_cc14(&Some(m)).to_vec(),
+                }
+            } else {
+                match region(|| match which {
+                    1 => tu::nrpn(c as u8, x as u16, y as u8),
+                    2 => tu::nrpn_14_bit(c as u8, x as u16, y as u16),
+                    3 => tu::rpn(c as u8, x as u16, y as u8),
+                    _ => tu::rpn_14_bit(c as u8, x as u16, y as u16),
+                }) {
+                    None => vec![PANIC],
+                    Some(m) => crate::nrpn::enc_pn(&Some(m)).to_vec(),
+                }
+            }
+        }
         _ => vec![-97],
     }
 }
@@ -621,6 +654,31 @@ pub fn gen_c06(tier: Tier, seed: u64, em: &mut Emitter) {
     for s in 0..256 {
         for &(a, b) in &[(0i64, 0i64), (127, 127), (128, 0), (0, 128), (255, 255)] {
             em.emit_k("test_util/short", 62, vec![100, s, a, b]);
+        }
+    }
+    // scalar helpers on every value of their argument type
+    for which in 0..6i64 {
+        let top = if which == 2 { 65535 } else { 255 };
+        for v in 0..=top {
+            em.emit_k("test_util/scalars", 63, vec![which, v]);
+        }
+    }
+    // shorthands of the multi-message constructs with in- and out-of-range primitives
+    let chs = [0i64, 15, 16, 255];
+    for &c in &chs {
+        for &n in &[0i64, 1, 31, 32, 127, 128, 255] {
+            for &v in &[0i64, 16383, 16384, 65535] {
+                em.emit_k("test_util/cc14", 64, vec![0, c, n, v]);
+            }
+        }
+        for which in 1..5i64 {
+            let is14 = which == 2 || which == 4;
+            for &n in &[0i64, 16383, 16384, 65535] {
+                let vals: &[i64] = if is14 { &[0, 127, 128, 16383, 16384, 65535] } else { &[0, 127, 128, 255] };
+                for &v in vals {
+                    em.emit_k("test_util/nrpn", 64, vec![which, c, n, v]);
+                }
+            }
         }
     }
 }
